@@ -303,17 +303,26 @@ Proof.
 Qed.
 
 (* ---- dec inverts enc on well-formed values ---- *)
+Lemma tag_cls_not_tag a : is_tag a = false -> tag_cls a = None.
+Proof.
+  destruct a as [| | | |s|]; cbn; try reflexivity. destruct s as [|ch s]; [reflexivity|].
+  destruct (N.eqb ch 0); [discriminate|reflexivity].
+Qed.
 Lemma dec_dict_plain kvs :
   forallb (fun k => negb (is_tag k)) (map fst kvs) = true ->
   dec (VDict kvs) = ODict (dec_items kvs).
 Proof.
-  intros H. destruct kvs as [|[k v] [|[k2 v2] rest]]; [reflexivity|destruct v; reflexivity|].
-  destruct v; try reflexivity. destruct v2 as [a| | | | |]; try reflexivity.
-  destruct a; try reflexivity. destruct rest; [|reflexivity].
-  cbn [dec]. destruct (tag_cls k) eqn:E; [|reflexivity].
-  apply tag_cls_is_tag in E. cbn in H. rewrite E in H. discriminate.
+  intros H. destruct kvs as [|[k v] [|[k2 v2] [|kv3 rest]]]; try reflexivity.
+  - destruct v as [a| | | | |]; try reflexivity; destruct a; reflexivity.
+  - cbn in H. apply andb_true_iff in H as [H1 H2]. apply andb_true_iff in H2 as [H2 _].
+    apply negb_true_iff in H1, H2. apply tag_cls_not_tag in H1, H2.
+    destruct v as [a| | |d| |]; destruct v2 as [a2| | |d2| |]; try destruct a; try destruct a2;
+      cbn [dec]; rewrite ?H1, ?H2; reflexivity.
+  - destruct v as [a| | |d| |]; destruct v2 as [a2| | |d2| |]; try destruct a; try destruct a2; reflexivity.
 Qed.
 Lemma dec_obj cls attrs k2 s : dec (VDict [(otag cls, VDict attrs); (k2, VAtom (AStr s))]) = OObj cls (dec_attrs attrs).
+Proof. reflexivity. Qed.
+Lemma dec_obj_swapped cls attrs k2 s : dec (VDict [(k2, VAtom (AStr s)); (otag cls, VDict attrs)]) = OObj cls (dec_attrs attrs).
 Proof. reflexivity. Qed.
 
 Theorem dec_enc : forall t, owf t = true -> dec (enc t) = t.
